@@ -276,7 +276,8 @@ def canon(v, env):
 
 
 class _Src:
-    def __init__(self):
+    def __init__(self, prefix="a"):
+        self.prefix = prefix
         self.funcs = []
         self.ntag = 0
         self.nfn = 0
@@ -296,7 +297,7 @@ class _Src:
         pad = "    " * ind
         k = p[0]
         if k in ("Y", "YS"):
-            tag = f"a{self.ntag}"
+            tag = f"{self.prefix}{self.ntag}"
             self.ntag += 1
             cmd = p[1] if len(p) > 1 else None
             obj = p[2] if len(p) > 2 else None
@@ -338,8 +339,8 @@ class _Src:
             raise ValueError(p)
 
 
-def source(p):
-    s = _Src()
+def source(p, prefix="a"):
+    s = _Src(prefix)
     top = s.fn(p)
     return "\n\n".join(s.funcs) + f"\n\n_top = {top}\n"
 
@@ -347,16 +348,16 @@ def source(p):
 _compiled = {}
 
 
-def compile_program(p):
-    """AST -> generator function ``f(env)``."""
-    f = _compiled.get(p)
+def compile_program(p, prefix="a"):
+    """AST -> generator function ``f(env)``; yield sites are tagged <prefix>0, <prefix>1, ... in pre-order."""
+    f = _compiled.get((p, prefix))
     if f is None:
         ns = {}
-        exec(compile(source(p), "<genproto>", "exec"), ns)  # noqa: S102 - generated from a closed grammar
+        exec(compile(source(p, prefix), "<genproto>", "exec"), ns)  # noqa: S102 - generated from a closed grammar
         f = ns["_top"]
         if len(_compiled) > 200000:
             _compiled.clear()
-        _compiled[p] = f
+        _compiled[(p, prefix)] = f
     return f
 
 
